@@ -51,7 +51,12 @@ def slab_externals(log=None):
         if isinstance(a[0], tuple) and a[0][:1] == ('array',):
             return not a[0][1]
         raise Unknown('emptiness of %r' % (a[0],))
-    return {'Slab::get': get, 'Slab::get_mut': get, 'Slab::contains': contains, 'Slab::len': length, 'Slab::is_empty': is_empty}
+    def get2(a):
+        x, y = get([a[0], a[1]]), get([a[0], a[2]])
+        if a[1] == a[2]:
+            raise Panic()
+        return some(('tuple', [x[1], y[1]])) if x != NONE and y != NONE else NONE
+    return {'Slab::get': get, 'Slab::get_mut': get, 'Slab::contains': contains, 'Slab::len': length, 'Slab::is_empty': is_empty, 'Slab::get2_mut': get2}
 
 
 def is_err(v):
@@ -436,6 +441,25 @@ def cases_afftree_delegate(name):
     return mk
 
 
+def cases_child_mut():
+    out = []
+    for name, args, want in cases_child():
+        if isinstance(want, tuple) and want[:1] == ('ok',):
+            w = want[1]
+            want = ok(('struct', 'tree::graph::EdgeReferenceMut', w[2]))
+        out.append((name, args, want))
+    return out
+
+
+def cases_tree_node2_mut():
+    na, nb = node('A'), node('B', parent=some(A))
+    t = tree(some(A), A=na, B=nb)
+    return [('the first index is not stored', [t, C, B], ('err', None)),
+            ('the second index is not stored', [t, A, C], ('err', None)),
+            ('both indices are stored', [t, A, B], ok(('tuple', [na, nb]))),
+            ('both indices are stored (other order)', [t, B, A], ok(('tuple', [nb, na])))]
+
+
 def cases_tree_clone():
     return [('any tree', [struct(TREE, arena=atom('ARENA'), root=atom('ROOT'))], struct(TREE, arena=atom('ARENA'), root=atom('ROOT')))]
 
@@ -491,6 +515,10 @@ TABLES.update({
     'AffTree::num_terminals': (cases_afftree_delegate('Tree::num_terminals'), 'the number of terminals of the arena tree'),
     'AffTree::depth': (cases_afftree_delegate('Tree::depth'), 'the depth of the arena tree'),
     'PolyhedraIter::skip_subtree': (cases_polyiter_skip, 'skip_subtree of the wrapped generator'),
+    'Tree::tree_node_mut': (cases_tree_node, 'the stored node, Err for an index that is not stored'),
+    'Tree::node_value_mut': (cases_node_value, 'the value of the stored node, Err for an index that is not stored'),
+    'Tree::tree_node2_mut': (cases_tree_node2_mut, 'the two stored nodes in argument order, Err when one of the indices is not stored'),
+    'Tree::child_mut': (cases_child_mut, 'the edge (node, label, child in that slot) with both values, Err when node, slot or child is missing'),
     '<Tree as Clone>::clone': (cases_tree_clone, 'a copy with the same arena (same indices) and the same root'),
     '<TreeNode as Clone>::clone': (cases_node_clone, 'a copy with the same value, parent link, child slots and leaf flag'),
     '<AffTree as Clone>::clone': (cases_afftree_clone, 'a copy with the same arena tree and input dimension'),
@@ -757,11 +785,11 @@ class LoopBack(Exception):
     pass
 
 
-def check_parent(ctx, rule):
+def check_parent(ctx, rule, q='Tree::parent', edge_path=None):
     """Tree::parent: three look-ups that can fail, then a search of the parent's slots for the asked index.  The search loop is decided per
     slot: one iteration is walked with the slot empty / holding another child / holding the asked index; asking the iterator for a second
     element means "this slot was passed over"."""
-    q = 'Tree::parent'
+    edge_path = edge_path or EDGE
     what = 'the edge (parent, label of the slot that holds the node, node), Err when the node or its parent link is missing'
     site = q + '#cases'
     bodies = bodies_of(ctx, q)
@@ -773,7 +801,7 @@ def check_parent(ctx, rule):
     ch = slots('children of P')
     nodeA = node('A', parent=some(P))
     full = tree(some(P), P=node('P', isleaf=False, children=ch), A=nodeA)
-    want_edge = ok(struct(EDGE, source_value=atom('value_of_P'), source_idx=P, label=L, target_value=atom('value_of_A'), target_idx=A))
+    want_edge = ok(struct(edge_path, source_value=atom('value_of_P'), source_idx=P, label=L, target_value=atom('value_of_A'), target_idx=A))
     wrong, unknown = [], []
 
     def one(name, args, want, slot=None):
@@ -845,6 +873,8 @@ def run(ctx, rule, names):
             check_pipe(ctx, rule, q)
         elif q == 'Tree::parent':
             check_parent(ctx, rule)
+        elif q == 'Tree::parent_mut':
+            check_parent(ctx, rule, q, 'tree::graph::EdgeReferenceMut')
         else:
             raise KeyError(q)
 
@@ -863,7 +893,7 @@ DEPS = {'C01': ['Tree::children', 'Tree::is_leaf', 'Tree::num_children', 'Tree::
         'C08': ['TreeNode::children_iter', 'tree::iter::TraversalMut::iter', '<TraversalIter as Iterator>::next', 'Tree::tree_node'],
         'C09': ['Tree::parent', 'Tree::child', 'Tree::children', 'Tree::get_root', 'Tree::node_value', 'Tree::num_children', '<TraversalIter as Iterator>::next', 'PolyhedraGen::current_polytope', 'PolyhedraIter::skip_subtree'],
         'C11': ['Tree::parent', 'Tree::children', 'Tree::contains'],
-        'C12': ['TreeNode::new', 'Tree::is_root', 'Tree::is_leaf', 'Tree::contains', 'Tree::tree_node', 'Tree::node_value', 'Tree::get_root', 'Tree::child', 'Tree::parent', 'Tree::num_children', 'TreeNode::children_iter', 'Tree::children', '<Tree as Index>::index', 'Tree::with_capacity', 'Tree::new', '<Tree as Default>::default', 'Tree::with_root', '<NodeError as From>::from', 'EdgeReferenceMut::extract', 'EdgeReferenceMut::edge', 'NodeReferenceMut::index', 'Tree::is_empty', '<Tree as Clone>::clone', '<TreeNode as Clone>::clone'],
+        'C12': ['TreeNode::new', 'Tree::is_root', 'Tree::is_leaf', 'Tree::contains', 'Tree::tree_node', 'Tree::node_value', 'Tree::get_root', 'Tree::child', 'Tree::parent', 'Tree::num_children', 'TreeNode::children_iter', 'Tree::children', '<Tree as Index>::index', 'Tree::with_capacity', 'Tree::new', '<Tree as Default>::default', 'Tree::with_root', '<NodeError as From>::from', 'EdgeReferenceMut::extract', 'EdgeReferenceMut::edge', 'NodeReferenceMut::index', 'Tree::is_empty', '<Tree as Clone>::clone', '<TreeNode as Clone>::clone', 'Tree::tree_node_mut', 'Tree::node_value_mut', 'Tree::tree_node2_mut', 'Tree::child_mut', 'Tree::parent_mut'],
         'C13': ['TreeNode::children_iter', 'Tree::children', 'Tree::nodes', 'Tree::edge_iter', '<TraversalIter as Iterator>::next', '<TraversalIter as Iterator>::size_hint', 'TraversalIter::from', 'tree::iter::TraversalMut::iter', 'Tree::is_leaf', 'Tree::parent', 'Tree::get_root', '<DfsPre as TraversalMut>::size_hint', '<DfsEdge as TraversalMut>::size_hint', '<Bfs as TraversalMut>::size_hint', 'TraversalIter::skip_subtree', 'TraversalIter::new', 'EdgeReference::extract', 'EdgeReference::edge', 'NodeReference::index', 'AffTree::is_empty', 'Tree::node_indices', 'Tree::node_iter', 'Tree::get_root_idx', 'Tree::dfs_edge_iter', 'Tree::len', 'AffTree::len', 'AffTree::num_terminals', 'AffTree::depth', 'AffTree::nodes', 'AffTree::terminals', 'AffTree::decisions'],
         'C14': ['AffFuncBase::indim', 'AffFuncBase::outdim', 'AffFuncBase::n_constraints'],
         'C15': ['AffFuncBase::n_constraints', 'AffFuncBase::indim', '<AffFuncBase as Clone>::clone'],
